@@ -252,6 +252,35 @@ func (m *monitor) runFileCase(fc fileCase) (judged int, nontrivial bool) {
 			probe(fh, t, i)
 		}
 	}
+	// 2b. the same IFileHash object, after the file was rewritten in place with other bytes of the same length and given
+	// its previous modification time back (an extraction restoring times, cp -p, a coarse clock): the digest follows the bytes
+	if fh := newFH(); fh != nil && len(data) > 0 {
+		t := &tracker{}
+		g, err := fh.CalculateFile(fs, p1)
+		judge("IFileHash.CalculateFile", t, p1, g, err)
+		if st, serr := fs.Stat(p1); serr == nil {
+			other := append([]byte(nil), data...)
+			for i := range other {
+				other[i] ^= 0x5a
+			}
+			if werr := putFile(fs, p1, other); werr == nil {
+				_ = fs.Chtimes(p1, st.ModTime(), st.ModTime())
+				want[p1], bytesAt[p1] = a.Ref(other), other
+				m.rewrittenSameStamp.Add(1)
+				g, err = fh.CalculateFile(fs, p1)
+				judge("IFileHash.CalculateFile(after an in-place rewrite with the same length and time)", t, p1, g, err)
+				g, err = fh.CalculateFileWithContext(live, fs, p1)
+				judge("IFileHash.CalculateFileWithContext(after an in-place rewrite with the same length and time)", t, p1, g, err)
+				// back to the original bytes for what follows
+				if werr := putFile(fs, p1, data); werr == nil {
+					_ = fs.Chtimes(p1, st.ModTime(), st.ModTime())
+					want[p1], bytesAt[p1] = a.Ref(data), data
+					g, err = fh.CalculateFile(fs, p1)
+					judge("IFileHash.CalculateFile(after an in-place rewrite with the same length and time)", t, p1, g, err)
+				}
+			}
+		}
+	}
 	// 3. failures on the IFileHash object, then a probe
 	rng := m.r.Rand("c20-file", fc.ID)
 	pickK := func() int {
